@@ -151,11 +151,13 @@ pub fn run(ctx: &mut Ctx) {
             }
         }
     }
-    // from_iter over pairs: for EVERY key vector of length <= 3 over keys 0..=3: accepted iff the keys
+    // from_iter over pairs: for EVERY key vector of length <= 5 over keys 0..=len: accepted iff the keys
     // are a permutation of 0..len, and then each key maps to its value whatever the input order
-    for len in 0..=3usize {
-        for code in 0..4usize.pow(len as u32) {
-            let keys: Vec<usize> = (0..len).map(|k| (code / 4usize.pow(k as u32)) % 4).collect();
+    // (lengths 4 and 5 as well: a placement that is not a full sort first goes wrong on a 4-cycle of keys)
+    for len in 0..=5usize {
+        let base = (len + 1).max(4);
+        for code in 0..base.pow(len as u32) {
+            let keys: Vec<usize> = (0..len).map(|k| (code / base.pow(k as u32)) % base).collect();
             let id = format!("dnm.from_pairs:{:?}", keys);
             if !ctx.want(&id) { continue; }
             let mut sorted = keys.clone();
